@@ -283,6 +283,19 @@ def run(ctx):
         ctx.no_mc = True
     else:
         recs = coal_records(ctx, rng, nid) + equil_records(ctx, rng, nid) + regime_records(ctx, rng, nid) + stationary_records(ctx, rng, nid)
+    # the records are judged independently; deal them over the parallel TLC batches by estimated cost (the exact coalescent
+    # expectation for n = 30 and four epochs is far heavier than a regime record) so that no batch collects all heavy ones
+    npar = 8 if ctx.quick else 14
+
+    def cost(r):
+        if r['op'] == 'coal':
+            return r['in']['n'] ** 2 * (1 + len(r['in']['hist'])) * len(r['out']['runs'])
+        if r['op'] == 'equil_sfs':
+            return 40 * r['in']['n'] * len(r['out']['runs'])
+        return 1
+    if not ctx.replay:
+        order = sorted(recs, key=cost, reverse=True)
+        recs = [r for j in range(npar) for r in order[j::npar]]       # round-robin by decreasing cost; batches are cut contiguously
     return common.pipeline(
         ctx, [('CoalescentMC', 'CoalescentMC_%s.cfg' % ctx.tier)], 'Trace_Theory', recs, mutator=mutate,
         nontrivial_of=lambda r: (r['op'], r['site'], r['in'].get('n'), r['in'].get('kind'), r['in'].get('log'), r['in'].get('asfunc'),
@@ -295,4 +308,4 @@ def run(ctx):
                      'an independent evaluation (closed form / composite quadrature); TLC computes the coalescent expectation and the sampling quadrature exactly',
                      'the 1.5 % bound is applied with grid lists >= [100,120,140]; for equilibrium spectra only for |gamma| <= 10 (calibration in DESIGN C01), '
                      'elsewhere the error must shrink by >= 2x per grid doubling', 'convergence is sampled at 2-4 refinement levels, not proved'],
-        parallel=8)
+        parallel=npar)
